@@ -2289,6 +2289,15 @@ class Fouriergate(Gate):
     def __init__(self):
         super().__init__([np.pi / 2])
 
+    def merge(self, other):
+        # The Fourier gate is a fixed gate: its parameter cannot absorb another rotation,
+        # it can only cancel against its own inverse.
+        if not self.__class__ == other.__class__:
+            raise MergeFailure("Not the same gate family.")
+        if self.dagger != other.dagger:
+            return None  # identity gate
+        raise MergeFailure("Don't know how to merge these gates.")
+
     def _decompose(self, reg, **kwargs):
         # into a rotation
         theta = np.pi / 2
